@@ -350,6 +350,14 @@ impl Worker {
 }
 
 /// user + system CPU time of this process in milliseconds (from /proc/self/stat, 10 ms ticks)
+/// how much slower than on an idle machine this run can expect to be: load average over processors,
+/// between 1 and 4
+pub fn load_factor() -> f64 {
+    let load: f64 = std::fs::read_to_string("/proc/loadavg").ok().and_then(|s| s.split_whitespace().next().and_then(|x| x.parse().ok())).unwrap_or(0.0);
+    let cpus = std::thread::available_parallelism().map(|n| n.get()).unwrap_or(1) as f64;
+    (load / cpus).clamp(1.0, 4.0)
+}
+
 pub fn process_cpu_ms() -> u64 {
     let stat = match std::fs::read_to_string("/proc/self/stat") {
         Ok(s) => s,
@@ -576,10 +584,13 @@ pub fn supervise(opts: &SuperOpts, crash_sig: CrashSig, totals: &mut Totals) {
         })
         .collect();
     let mut live = opts.workers;
+    // the cap is meant for an otherwise idle machine: when other work competes for the processors (the
+    // one-minute load average at the start exceeds their number) it is stretched accordingly, up to 4x
+    let wall_cap = opts.wall_cap.mul_f64(load_factor());
 
     while live > 0 {
         let msg = rx.recv_timeout(Duration::from_millis(200));
-        if start.elapsed() > opts.wall_cap {
+        if start.elapsed() > wall_cap {
             for w in ws.iter_mut() {
                 let _ = w.child.kill();
                 let _ = w.child.wait();
